@@ -114,6 +114,34 @@ pub mod lib {
     pub use std::format;
 }
 
+/// Verification hooks (compiled only with `--cfg rbpf_verif`): the last machine code emitted by the
+/// x86-64 JIT with its per-instruction offsets, and the last Cranelift IR built by the Cranelift
+/// front end. Read-only instrumentation; nothing here influences compilation or execution.
+#[cfg(rbpf_verif)]
+pub mod verif {
+    use crate::lib::*;
+    #[allow(clippy::type_complexity)]
+    static mut LAST_JIT: Option<(Vec<u8>, Vec<usize>, usize)> = None;
+    #[allow(clippy::type_complexity)]
+    static mut LAST_CLIF: Option<(String, Vec<(u32, String)>)> = None;
+    #[allow(dead_code)]
+    pub(crate) fn record_jit(code: Vec<u8>, pc_locs: Vec<usize>, base: usize) {
+        unsafe { *core::ptr::addr_of_mut!(LAST_JIT) = Some((code, pc_locs, base)) }
+    }
+    #[allow(dead_code)]
+    pub(crate) fn record_clif(text: String, helpers: Vec<(u32, String)>) {
+        unsafe { *core::ptr::addr_of_mut!(LAST_CLIF) = Some((text, helpers)) }
+    }
+    /// (code bytes, offset of each eBPF instruction in the code, address of the code buffer)
+    pub fn last_jit() -> Option<(Vec<u8>, Vec<usize>, usize)> {
+        unsafe { (*core::ptr::addr_of!(LAST_JIT)).clone() }
+    }
+    /// (CLIF text of the translated function, helper id -> FuncRef name)
+    pub fn last_clif() -> Option<(String, Vec<(u32, String)>)> {
+        unsafe { (*core::ptr::addr_of!(LAST_CLIF)).clone() }
+    }
+}
+
 /// eBPF verification function that returns an error if the program does not meet its requirements.
 ///
 /// Some examples of things the verifier may reject the program for:
